@@ -2,7 +2,6 @@
   `writeSectors`: which flat sectors the data copy of `writeFile` touches, and with what.
 -/
 import MotoModel.Proofs.DiskFill
-import MotoModel.Props.C06
 namespace Moto.Disk
 open Moto
 
@@ -11,7 +10,7 @@ def flatOf (blocks : List Nat) (j : Nat) : Nat := 8 * blocks.getD (j / 8) 0 + j 
 
 theorem flatOf_idx (blocks : List Nat) (j : Nat) :
     idx (blockTrack (blocks.getD (j / 8) 0)) (blockFirstSector (blocks.getD (j / 8) 0) + j % 8) = flatOf blocks j :=
-  C06.block_sectors_flat _ _ (Nat.mod_lt _ (by omega))
+  block_sectors_flat _ _ (Nat.mod_lt _ (by omega))
 
 theorem getD_inj_of_nodup (l : List Nat) (h : l.Nodup) (i j : Nat) (hi : i < l.length) (hj : j < l.length)
     (he : l.getD i 0 = l.getD j 0) : i = j := (List.getD_inj hi hj h).mp he
